@@ -26,6 +26,7 @@ func runC12(c *Check, rng *rand.Rand) {
 	for _, mode := range modes {
 		c12mode(c, rng, mode)
 	}
+	c12timeouts(c, rng)
 	// in-process: the same generator against the real decoder, by the million
 	// (one goroutine: the decoder is written for a single-threaded event loop and keeps global scratch state)
 	n := "400000"
@@ -170,6 +171,73 @@ func c12mode(c *Check, rng *rand.Rand, mode string) {
 	}
 	c.Count("proxy_max_rss_kb_"+modeName(mode), env.P.RSSKB())
 	c.Count("race_reports_diagnostic", int64(env.P.RaceReports()))
+}
+
+// c12timeouts: with a request timeout configured, hostile clients leave requests
+// pending (stalled backend) and then send garbage or hang up; the timeouts fire on
+// requests whose client is already gone.
+func c12timeouts(c *Check, rng *rand.Rand) {
+	env, err := NewEnv(EnvOpt{Masters: 3, Cfg: ProxyCfg{Timeout: 300}})
+	must(err, "start env")
+	defer env.Close()
+	script := NewScript()
+	env.Cl.SetHandler(script.Handler)
+	for round := 0; round < c.Pick(3, 40); round++ {
+		var gates []*Gate
+		var keys []string
+		for k := 0; k < 12; k++ {
+			cl, err := env.Dial()
+			if err != nil {
+				break
+			}
+			key := Key(rng.Intn(16384), newToken("st"))
+			g := NewGate()
+			script.Plan(key).Gate = g
+			gates = append(gates, g)
+			keys = append(keys, key)
+			req := Req("GET", key)
+			if k%3 == 0 {
+				req = Req("MGET", key, Key(rng.Intn(16384), newToken("st")))
+			}
+			switch k % 4 {
+			case 0:
+				cl.Send(append(req, []byte("garbage\r\n")...))
+			case 1:
+				cl.Send(append(req, GenHostile(rng).Data...))
+			case 2:
+				cl.Send(req)
+				env.Barrier()
+				cl.Abort()
+			default:
+				cl.Send(req)
+				env.Barrier()
+				cl.Close()
+			}
+			c.Eval(1)
+			c.Distinct(fmt.Sprintf("timeout-mode/%d/%d", round, k))
+		}
+		time.Sleep(1800 * time.Millisecond) // timeouts fire (scan granularity <= ~1.2 s)
+		// (no data witness here: the nodes' connections are legitimately blocked by the
+		// stalled requests; liveness is the witness connection's PING round trips)
+		wok := true
+		berr := env.Barrier()
+		if !env.P.Alive() {
+			c.Violate(Violation{Class: "proxy-died", Shape: "timeout-on-request-of-a-gone-client",
+				Detail:  "request timeout configured; clients left requests pending and then sent garbage / hung up; the proxy died: " + env.P.PanicLine(),
+				Witness: map[string]interface{}{"stderr": env.P.OutputTail(2500)}})
+			return
+		}
+		if berr != nil {
+			infra("barrier: %v", berr)
+		}
+		_ = wok
+		for _, g := range gates {
+			g.Open()
+		}
+		env.Barrier()
+		script.Forget(keys...)
+	}
+	c.Count("timeout_mode_rounds", 1)
 }
 
 func shapeOfProtoErr(e string) string {
